@@ -10,6 +10,12 @@
   crate (`not_separated_counterexample`, `not_separated_second_candidate_counterexample`); what survives
   there is `from_local_earliest_sound`.  The harness judges those zones under a distinct message prefix.
 
+  Rule half of the instant specification.  `offAt` decides an instant under a rule by the two rule
+  transitions of its calendar year (the code's and glibc's convention).  `ruleDstSeq`
+  (Spec/ZoneSeqSpec.lean) is the independent transition-sequence reading; `ruleDst_eq_seq` proves the two
+  equal exactly on `OrderStable` rules, `order_flip_characterised` / `order_flip_phantom` say what the
+  per-year convention does where the order flips (finding F30, widened to the lookup by instant).
+
   Model: `Chrono.M.TzL` (Model/TzLookup.lean) mirrors timezone.rs / rule.rs / the glue of unix.rs.
   Specification: `Chrono.Spec.Zone` (Spec/ZoneSpec.lean): proleptic Gregorian day count, POSIX rule
   days, the zone as a step function `ltAt`/`offAt`, `Classifies` (0/1/2 occurrences of a wall-clock
@@ -22,6 +28,8 @@ import Chrono.Proofs.TzLookupM
 import Chrono.Proofs.TzYearlyL
 import Chrono.Proofs.TzGlueL
 import Chrono.Proofs.TzLocalL
+import Chrono.Proofs.TzSeqL
+import Chrono.Proofs.TzBridgeL
 
 namespace Chrono.Props.C05
 open Chrono Chrono.M.Tz Chrono.M.TzL Chrono.Spec.Zone Chrono.Extracted.TzL Chrono.Proofs.TzL
@@ -320,7 +328,10 @@ rule, under
   table window, or after `T` with its window strictly above it,
 `find_local_time_type_from_local` classifies every wall-clock reading other than the excepted
 boundary seconds (`T + prevOff` of each table transition that changes the offset; the rule's own
-start/end wall-clock second of the reading's year, when the rule changes the offset) exactly as the zone's step function `offAt` demands: None / Single / Ambiguous
+start/end wall-clock second of the reading's year, when the rule changes the offset AND the reading lies
+beyond the last table window, `hiLast … < ℓ`: in the table era the rule's seconds are ordinary readings —
+the loop answers them without consulting the rule — and the theorem covers them, see the `exZoneUS`
+example at 1950-03-12 02:00 below) exactly as the zone's step function `offAt` demands: None / Single / Ambiguous
 when 0 / 1 / 2 instants read it, with the right offsets, the two candidates distinct and earliest first.
 `offAt` is the same function the composed lookup by instant is proved against (`offAt_ok` covers
 table, rule and the hand-over at the last transition in one statement). -/
@@ -329,11 +340,11 @@ theorem from_local_classifies_composed (z : Zone) (a : Alt) (last : Transition) 
     (hs : Sorted z.transitions) (hsep : WellSeparated z) (hj : JoinSeparated z)
     (hvS : ValidDay a.dstStart) (hvE : ValidDay a.dstEnd) (hy : RuleYearly a)
     (hnb : NoBoundary' z (typeAt z 0).off z.transitions ℓ)
-    (hS : a.std.off ≠ a.dst.off → ℓ ≠ wallStart a (naiveYear ℓ))
-    (hE : a.std.off ≠ a.dst.off → ℓ ≠ wallEnd a (naiveYear ℓ))
+    (hS : a.std.off ≠ a.dst.off → hiLast z (typeAt z 0).off z.transitions < ℓ → ℓ ≠ wallStart a (naiveYear ℓ))
+    (hE : a.std.off ≠ a.dst.off → hiLast z (typeAt z 0).off z.transitions < ℓ → ℓ ≠ wallEnd a (naiveYear ℓ))
     (hr : InRange z z.transitions) (hℓ : -36028797018963968 ≤ ℓ ∧ ℓ ≤ 36028797018963968) :
     Classifies (offAt z) ℓ (z.find_local_time_type_from_local ℓ) :=
-  composed_alt' z a last ℓ hrule hl hs hsep hj hvS hvE hy hnb hS hE hr hℓ
+  composed_alt_guarded' z a last ℓ hrule hl hs hsep hj hvS hvE hy hnb hS hE hr hℓ
 
 /-- the round trip for such a zone: converting an instant to wall-clock time and back returns it -/
 theorem roundtrip_composed (z : Zone) (a : Alt) (last : Transition) (t : Int)
@@ -341,12 +352,14 @@ theorem roundtrip_composed (z : Zone) (a : Alt) (last : Transition) (t : Int)
     (hs : Sorted z.transitions) (hsep : WellSeparated z) (hj : JoinSeparated z)
     (hvS : ValidDay a.dstStart) (hvE : ValidDay a.dstEnd) (hy : RuleYearly a)
     (hnb : NoBoundary' z (typeAt z 0).off z.transitions (t + offAt z t))
-    (hS : a.std.off ≠ a.dst.off → t + offAt z t ≠ wallStart a (naiveYear (t + offAt z t)))
-    (hE : a.std.off ≠ a.dst.off → t + offAt z t ≠ wallEnd a (naiveYear (t + offAt z t)))
+    (hS : a.std.off ≠ a.dst.off → hiLast z (typeAt z 0).off z.transitions < t + offAt z t →
+      t + offAt z t ≠ wallStart a (naiveYear (t + offAt z t)))
+    (hE : a.std.off ≠ a.dst.off → hiLast z (typeAt z 0).off z.transitions < t + offAt z t →
+      t + offAt z t ≠ wallEnd a (naiveYear (t + offAt z t)))
     (hr : InRange z z.transitions)
     (hℓ : -36028797018963968 ≤ t + offAt z t ∧ t + offAt z t ≤ 36028797018963968) :
     offAt z t ∈ (z.find_local_time_type_from_local (t + offAt z t)).toList.map (·.off) :=
-  classifies_roundtrip _ _ _ (composed_alt' z a last _ hrule hl hs hsep hj hvS hvE hy hnb hS hE hr hℓ) t rfl
+  classifies_roundtrip _ _ _ (composed_alt_guarded' z a last _ hrule hl hs hsep hj hvS hvE hy hnb hS hE hr hℓ) t rfl
 
 /-- the same with a fixed footer rule (`JoinSeparated` then says: the rule's offset is the one the
 table ends on) -/
@@ -488,6 +501,160 @@ example : Classifies (offAt exZoneUS) 1730597400 (.ambiguous usRule.dst usRule.s
 example : exZoneUS.find_local_time_type 1720000000 = some (ltAt exZoneUS 1720000000) :=
   offAt_ok exZoneUS 1720000000 (by unfold Sorted exZoneUS; decide) rfl
     ⟨by unfold ValidDay usRule; decide, by unfold ValidDay usRule; decide, usRule_yearly.2⟩ (by omega)
+
+-- second review, gap 3: 1950-03-12 02:00 local IS `wallStart usRule 1950`, one of the footer rule's two
+-- boundary seconds of its year, but it lies in the table era (far below the last table window): the
+-- table loop answers it without consulting the rule, it is an ordinary reading (exactly one instant,
+-- 07:00 UTC), and the composed theorem now covers it (its `hS`/`hE` bind only beyond the last window)
+example : (-625096800 : Int) = wallStart usRule (naiveYear (-625096800)) ∧
+    Classifies (offAt exZoneUS) (-625096800) (.single ⟨-18000, false, none⟩) ∧
+    wallSet exZoneUS (-625096800) = [-625078800] := by
+  have h := from_local_classifies_composed exZoneUS usRule ⟨1710054000, 1⟩ (-625096800) rfl (by decide)
+    (by unfold Sorted exZoneUS; decide) (by unfold WellSeparated; decide) (by unfold JoinSeparated; decide)
+    (by unfold ValidDay usRule; decide) (by unfold ValidDay usRule; decide) usRule_yearly.1
+    (by unfold exZoneUS NoBoundary' NoBoundary' NoBoundary' NoBoundary'; decide) (by decide) (by decide)
+    ⟨fun i => by
+        unfold typeAt exZoneUS
+        match i with
+        | 0 => decide
+        | 1 => decide
+        | (n + 2) => simp [List.getD]; decide,
+      by unfold exZoneUS; decide⟩ (by omega)
+  have e : exZoneUS.find_local_time_type_from_local (-625096800) = .single ⟨-18000, false, none⟩ := by decide
+  rw [e] at h
+  exact ⟨by decide, h, by decide⟩
+
+/-! #### the rule half of the instant specification: per-year decision vs. transition sequence
+
+`offAt` (through `ruleDst`) judges an instant by the two rule transitions of the calendar year that
+contains it — the code's own decision procedure (and glibc's).  The independent reading of a POSIX rule
+is the SEQUENCE of all its start and end instants: `ruleDstSeq` (Spec/ZoneSeqSpec.lean).  The two agree
+exactly when the start/end order is the same every year (`OrderStable`, decidable: `orderStable_of_B`;
+true of every footer rule under /usr/share/zoneinfo, all of which are even `RuleYearly`).  `InsideYear`
+(the property's restriction) does NOT imply it: `order_flip_phantom`. -/
+
+/-- for a rule inside the quantifier whose start/end order is the same every year, the per-year decision
+is the transition-sequence reading: daylight time is in force at `t` iff the latest rule transition of
+ANY year at or before `t` is a start -/
+theorem ruleDst_eq_seq (a : Alt) (hin : InsideYear a) (ho : OrderStable a) (t : Int) :
+    ruleDst a t = true ↔ ruleDstSeq a t := ruleDst_eq_seq' a hin ho t
+
+/-- `ruleDstSeq` really is a step function of the rule's transitions (no hypothesis on the rule): it does
+not change between two instants with no start or end of any year in `(u, v]` -/
+theorem ruleDstSeq_step (a : Alt) (u v : Int) (huv : u ≤ v)
+    (hS : ∀ y, ¬ (u < startAt a y ∧ startAt a y ≤ v)) (hE : ∀ y, ¬ (u < endAt a y ∧ endAt a y ≤ v)) :
+    ruleDstSeq a u ↔ ruleDstSeq a v := ruleDstSeq_const a u v huv hS hE
+
+/-- `OrderStable` is decidable: one Gregorian cycle; and it is part of `RuleYearly` -/
+theorem orderStable_of_B (a : Alt) : orderStableB a = true ↔ OrderStable a :=
+  ⟨orderStable_of_B' a, orderStableB_of a⟩
+
+theorem orderStable_of_ruleYearly (a : Alt) (h : RuleYearly a) : OrderStable a := orderStable_of_yearly a h
+
+/-- the lookup by instant against the transition-sequence specification, end to end: from the last
+table transition on, a zone whose footer rule is `InsideYear` and `OrderStable` answers the daylight
+type iff the latest rule transition at or before `t` is a start, else the standard type -/
+theorem rule_instant_seq_ok (z : Zone) (a : Alt) (t : Int) (hrule : z.rule = some (.alt a))
+    (hs : Sorted z.transitions) (hl : z.leaps = [])
+    (hvS : ValidDay a.dstStart) (hvE : ValidDay a.dstEnd) (hin : InsideYear a) (ho : OrderStable a)
+    (hafter : afterLast z t = true) (h : -36028797018963968 ≤ t ∧ t ≤ 36028797018963968) :
+    (ruleDstSeq a t → z.find_local_time_type t = some a.dst) ∧
+    (¬ ruleDstSeq a t → z.find_local_time_type t = some a.std) := by
+  have e : z.find_local_time_type t = some (if ruleDst a t then a.dst else a.std) := by
+    rw [offAt_ok z t hs hl (by rw [hrule]; exact ⟨hvS, hvE, hin⟩) h]
+    unfold ltAt
+    rw [hafter, hrule]
+    rfl
+  have k := ruleDst_eq_seq a hin ho t
+  constructor
+  · intro hq; rw [e, if_pos (k.mpr hq)]
+  · intro hq
+    have : ¬ ruleDst a t = true := fun hh => hq (k.mp hh)
+    rw [e, if_neg this]
+
+-- the US rule is order-stable (it is `RuleYearly`); New York on 2024-07-04 12:00 UTC, by the sequence reading
+example : exZoneUS.find_local_time_type 1720094400 = some usRule.dst ↔ ruleDstSeq usRule 1720094400 := by
+  have h := rule_instant_seq_ok exZoneUS usRule 1720094400 rfl (by unfold Sorted exZoneUS; decide) rfl
+    (by unfold ValidDay usRule; decide) (by unfold ValidDay usRule; decide) usRule_yearly.2
+    (orderStable_of_ruleYearly usRule usRule_yearly.1) (by decide) (by omega)
+  constructor
+  · intro e
+    by_cases c : ruleDstSeq usRule 1720094400
+    · exact c
+    · have := h.2 c
+      rw [e] at this
+      exact absurd this (by decide)
+  · exact h.1
+
+/-- `TZ=AAA0BBB-1,M6.2.0/2,J162/2`: daylight time starts on the second Sunday of June (June 8 … 14) and
+ends on June 11: start before end in 1969 (June 8), end before start in 1970 (June 14) -/
+def irr : Alt := ⟨⟨0, false, none⟩, ⟨3600, true, none⟩, .mwd 6 2 0, 7200, .julian1 162, 7200⟩
+def irrZ : Zone := ⟨[], [⟨0, false, none⟩], [], some (.alt irr)⟩
+
+/-- WHAT HAPPENS WHEN THE ORDER FLIPS (any rule inside the quantifier; north-shaped year `Y-1`, south-shaped
+year `Y`): the per-year decision — the code's, `offAt`'s — is standard time in the last second of `Y-1`
+and daylight time in the first second of `Y`, a change of offset at the year boundary although no rule
+transition of any year lies within a day of it; the transition sequence says standard time at both -/
+theorem order_flip_characterised (a : Alt) (hin : InsideYear a) (Y : Int)
+    (h1 : startAt a (Y - 1) ≤ endAt a (Y - 1)) (h2 : ¬ startAt a Y ≤ endAt a Y) :
+    ruleDst a (daysBeforeYear Y * 86400 - 1) = false ∧ ruleDst a (daysBeforeYear Y * 86400) = true ∧
+    ¬ ruleDstSeq a (daysBeforeYear Y * 86400 - 1) ∧ ¬ ruleDstSeq a (daysBeforeYear Y * 86400) ∧
+    ∀ y, ¬ (daysBeforeYear Y * 86400 - 86400 ≤ startAt a y ∧ startAt a y ≤ daysBeforeYear Y * 86400 + 86400) ∧
+         ¬ (daysBeforeYear Y * 86400 - 86400 ≤ endAt a y ∧ endAt a y ≤ daysBeforeYear Y * 86400 + 86400) := by
+  obtain ⟨a1, a2, a3, a4⟩ := order_flip_north_south a hin Y h1 h2
+  exact ⟨a1, a2, a3, a4, fun y => inside_no_transition_near_boundary a hin Y y⟩
+
+/-- the mirror image (south-shaped `Y-1`, north-shaped `Y`): the per-year decision drops from daylight to
+standard time at the year boundary; the transition sequence says daylight time at both -/
+theorem order_flip_characterised_south_north (a : Alt) (hin : InsideYear a) (Y : Int)
+    (h1 : ¬ startAt a (Y - 1) ≤ endAt a (Y - 1)) (h2 : startAt a Y ≤ endAt a Y) :
+    ruleDst a (daysBeforeYear Y * 86400 - 1) = true ∧ ruleDst a (daysBeforeYear Y * 86400) = false ∧
+    ruleDstSeq a (daysBeforeYear Y * 86400 - 1) ∧ ruleDstSeq a (daysBeforeYear Y * 86400) :=
+  order_flip_south_north a hin Y h1 h2
+
+/-- KERNEL-CHECKED WITNESS that widens finding F30 to the lookup by INSTANT (confirmed on the real crate
+through `Local` with `TZ=AAA0BBB-1,M6.2.0/2,J162/2`: `timestamp_opt(-1, 0)` reads 23:59:59 +00:00,
+`timestamp_opt(0, 0)` reads 01:00:00 +01:00; glibc does the same).  The rule is inside the property's
+quantifier (`InsideYear`, valid days) but not `OrderStable`; the model of the code — and `offAt`, which
+follows the code's per-year convention, so `offAt_ok` holds here by construction — changes the offset
+from 0 to +1 h between 1969-12-31T23:59:59Z and 1970-01-01T00:00:00Z, where no rule transition of any
+year lies within a day; by the transition sequence daylight time is in force at neither instant. -/
+theorem order_flip_phantom :
+    InsideYear irr ∧ ValidDay irr.dstStart ∧ ValidDay irr.dstEnd ∧ ¬ OrderStable irr ∧
+    irrZ.find_local_time_type (-1) = some irr.std ∧ irrZ.find_local_time_type 0 = some irr.dst ∧
+    offAt irrZ (-1) = 0 ∧ offAt irrZ 0 = 3600 ∧
+    (∀ y, ¬ (-86400 ≤ startAt irr y ∧ startAt irr y ≤ 86400) ∧ ¬ (-86400 ≤ endAt irr y ∧ endAt irr y ≤ 86400)) ∧
+    ¬ ruleDstSeq irr (-1) ∧ ¬ ruleDstSeq irr 0 := by
+  have hin : InsideYear irr := (insideYear_of_B irr).mp (by decide +kernel)
+  have e : daysBeforeYear 1970 = 0 := by decide
+  obtain ⟨_, _, s1, s2, nb⟩ := order_flip_characterised irr hin 1970 (by decide) (by decide)
+  rw [e] at s1 s2 nb
+  refine ⟨hin, by unfold ValidDay irr; decide, by unfold ValidDay irr; decide,
+    fun h => absurd (h 1969) (by decide), by decide, by decide, by decide, by decide, ?_, s1, s2⟩
+  intro y
+  have := nb y
+  constructor <;> omega
+
+/-- KERNEL-CHECKED COUNTEREXAMPLE for finding F30 (the wall-clock direction; F29 has
+`not_separated_counterexample`): the same rule is inside the quantifier (`InsideYear`) but not
+`RuleYearly`; the reading 1970-01-01T00:00:00 is answered `Single(+01:00)` — the instant
+1969-12-31T23:00:00Z, whose own offset is +00:00 — although NO instant reads it: the wall clock jumps
+from 23:59:59 to 01:00:00 at the phantom change of `order_flip_phantom`.  Confirmed on the real crate
+(`Local.from_local_datetime(1970-01-01T00:00:00)` = `Single(1970-01-01T00:00:00+01:00)`). -/
+theorem irregular_rule_counterexample :
+    insideYearB irr = true ∧ ruleYearlyB irr = false ∧
+    irrZ.find_local_time_type_from_local 0 = .single irr.dst ∧ wallSet irrZ 0 = [] ∧
+    offAt irrZ (0 - irr.dst.off) = 0 ∧
+    ¬ Classifies (offAt irrZ) 0 (irrZ.find_local_time_type_from_local 0) := by
+  have e : irrZ.find_local_time_type_from_local 0 = .single irr.dst := by decide
+  have o : offAt irrZ (0 - irr.dst.off) = 0 := by decide
+  refine ⟨by decide +kernel, by decide +kernel, e, by decide, o, ?_⟩
+  rw [e]
+  intro h
+  have := (h (0 - irr.dst.off)).mpr rfl
+  rw [o] at this
+  revert this
+  decide
 
 -- `exZone` (table + footer rule) meets every hypothesis; the 2024 fold is read as two instants, DST first
 example : Classifies (offAt exZone) 1729992600 (.ambiguous exRule.dst exRule.std) := by
@@ -675,6 +842,42 @@ example : cache_offset exZoneUS 1730597400 true = .ok (.ambiguous (-14400) (-180
 -- an offset `FixedOffset` cannot hold (a zone VALUE the readers no longer produce, F32): the glue answers `None`
 example : cache_offset ⟨[], [⟨86400, false, none⟩], [], none⟩ 0 true = .ok .none ∧
     cache_offset ⟨[], [⟨86400, false, none⟩], [], none⟩ 0 false = .ok .none := by decide
+
+/-! ### the glue's helper functions are the ones tied to the source text elsewhere (second review §3) -/
+
+/-- the glue model's `east_opt` is the C04 model's, hence (code translation, `GenDateTime.gen_east_opt_eq`)
+the function regenerated from src/offset/fixed.rs on every run -/
+theorem east_opt_tied (secs : Int) :
+    M.TzL.east_opt secs = M.Zoned.east_opt secs ∧
+    Gen.offset_fixed.FixedOffset.east_opt secs = M.TzL.east_opt secs :=
+  ⟨congrFun Chrono.Proofs.TzBridge.east_opt_bridge secs,
+   (Chrono.Props.GenDateTime.gen_east_opt_eq secs).trans (congrFun Chrono.Proofs.TzBridge.east_opt_bridge secs).symm⟩
+
+/-- the glue model's `checked_sub_offset` (on timestamps) is the C04 model `NaiveDT.checked_sub_offset`
+read in seconds: on a well-formed wall clock `l` and an offset below a day the structured function never
+panics, is `None` exactly when the timestamp function is, and otherwise a well-formed date-time whose
+second count is the timestamp function's value -/
+theorem checked_sub_offset_tied (l : M.NaiveDT) (o : Int) (ho : Spec.OffValid o) (hl : Spec.NDTInv l) :
+    ∃ r, l.checked_sub_offset o = .ok r ∧
+      r.map Spec.instSecs = M.TzL.checked_sub_offset (Spec.instSecs l) o ∧
+      (∀ u, r = some u → Spec.NDTInv u ∧ u.time.frac = l.time.frac) :=
+  Chrono.Proofs.TzBridge.checked_sub_offset_bridge l o ho hl
+
+/-- … and composed with the code translation (`GenDateTime.gen_checked_sub_offset_eq`): the function
+regenerated from src/naive/datetime/mod.rs, read in seconds, is the glue model's -/
+theorem gen_checked_sub_offset_tied (l : M.NaiveDT) (o : Int) (ho : Spec.OffValid o) (hl : Spec.NDTInv l)
+    (hd : Chrono.Props.GenDateTime.DateOk l.date) (hol : l.date.yof / 8 % 1024 ≤ 732) :
+    ∃ r : Option M.NaiveDT, Gen.naive_datetime.NaiveDateTime.checked_sub_offset (Chrono.Props.GenDateTime.ndtG l) o
+          = .ok (r.map Chrono.Props.GenDateTime.ndtG) ∧
+      r.map Spec.instSecs = M.TzL.checked_sub_offset (Spec.instSecs l) o := by
+  obtain ⟨r, h1, h2, _⟩ := checked_sub_offset_tied l o ho hl
+  refine ⟨r, ?_, h2⟩
+  rw [Chrono.Props.GenDateTime.gen_checked_sub_offset_eq l o hd hol, h1]
+  rfl
+
+-- 2024-11-03 01:30:00 local minus (-4 h): both functions answer 05:30:00 UTC
+example : M.TzL.checked_sub_offset 1730597400 (-14400) = some 1730611800 ∧
+    M.TzL.checked_sub_offset M.TzL.NDT_MIN_TS 1 = none := by decide
 
 /-- `wallSet` (the brute-force specification the harness mirrors) is exactly the set of instants
 whose wall-clock reading is `ℓ` -/
